@@ -73,7 +73,9 @@ def fl23(fr):
 VARIANTS = ("zero", "below", "at", "above", "top", "rand")
 
 
-def u_variant(name, fracs, rng):
+def u_variant(name, fracs, rng, gap=1):
+  """gap: distance (in 2^-23) of the 'above' draw from floor23(frac); 2 where the code's own
+  `fraction` carries one float32 rounding (real tanh / sigmoid values are not short dyadics)"""
   out = []
   for fr in fracs:
     at = fl23(fr)
@@ -84,7 +86,7 @@ def u_variant(name, fracs, rng):
     elif name == "at":
       u = at
     elif name == "above":
-      u = min(at + ULP, TOP)
+      u = min(at + gap * ULP, TOP)
     elif name == "top":
       u = TOP
     else:
@@ -279,7 +281,8 @@ def run(run: core.Run, tier: str):
       "round-half-even), off-lattice points, both saturation sides, 0; power-of-two classes: 2^e, "
       "1.5*2^e, points next to 2^e and 2^(e+1), max_value edges. Draws u are chosen, not sampled: 0, "
       "floor23(frac)-2^-23, floor23(frac), +2^-23, 1-2^-23 and one seeded random multiple of 2^-23 "
-      "(frac = probability of the upper code from the Lean reference). All values are short dyadics so "
+      "(frac = probability of the upper code from the Lean reference; +2*2^-23 for real tanh/sigmoid, "
+      "whose `fraction` carries one float32 rounding <= 2^-25). All other values are short dyadics so "
       "float32 arithmetic is exact. non-trivial = distinct (class, configuration, stream, variant)")
   run.assumptions += [
       "tf.random.uniform returns float32 multiples of 2^-23 in [0,1), independent per element; it is "
@@ -449,9 +452,10 @@ def _classes(run, tier, rng, tf, Q, K, draws, call):
     qd = make_q(Q, cls, cfg, False)
     nd = n_draws(cls, cfg)
     # ---- training, chosen draws
+    gap = 2 if (cfg.get("use_real_tanh") or cfg.get("use_real_sigmoid")) else 1
     for v in VARIANTS:
-      u1 = u_variant(v, fracs, rng)
-      u2 = u_variant(v, fracs, rng) if nd == 2 else None
+      u1 = u_variant(v, fracs, rng, gap)
+      u2 = u_variant(v, fracs, rng, gap) if nd == 2 else None
       ul = ([f32list(u1)] if nd >= 1 else []) + ([f32list(u2)] if nd == 2 else [])
       y, left = call(qs, c["xs32"], ul, True)
       lines.append(model_line(cls, cfg, True, True, c["ps"], u1, u2))
